@@ -217,8 +217,11 @@ func (s *Sim) setupEnv() {
 			panic(err)
 		}
 		var rt http.RoundTripper = e.tr
-		if cfg.ProxyMode != 0 {
+		switch cfg.ProxyMode {
+		case 1:
 			rt = &proxyRT{s: s, next: e.tr}
+		case 2:
+			rt = &cannedRT{s: s}
 		}
 		e.rawHTTP = &httpgrpc.Channel{Transport: rt, BaseURL: u}
 		e.conns[THTTP] = s.wrapClient(e.rawHTTP)
